@@ -119,9 +119,13 @@ impl<L: Localize> OpeningHours<L> {
         (self.expr.rules)
             .iter()
             .map(|rule| {
-                if rule.time_selector.is_immutable_full_day()
-                    || !rule.day_selector.filter(date, &self.ctx)
-                {
+                // A rule that matched yesterday can spill over today: the state may then change
+                // again tomorrow although the rule does not match today.
+                let matches_around = rule.day_selector.filter(date, &self.ctx)
+                    || (date.pred_opt())
+                        .is_some_and(|prev| rule.day_selector.filter(prev, &self.ctx));
+
+                if rule.time_selector.is_immutable_full_day() || !matches_around {
                     rule.day_selector.next_change_hint(date, &self.ctx)
                 } else {
                     date.succ_opt()
